@@ -11,8 +11,8 @@ Fixpoint lookup {A} (k : string) (l : list (string * A)) : option A :=
 Definition enum_vals (e : string) : list Z := match lookup e gen_enums with Some (_, l) => List.map snd l | None => [] end.
 Definition enum_type (e : string) : string := match lookup e gen_enums with Some (t, _) => t | None => "" end.
 Definition enum_val (e m : string) : Z := match lookup e gen_enums with Some (_, l) => match lookup m l with Some v => v | None => (-999)%Z end | None => (-999)%Z end.
-Definition keys_of (t : ty) : list Z := match t with TMap _ fs => fkeys fs | _ => [] end.
-Definition signed_of (t : ty) : bool := match t with TMap sk _ => sk | _ => false end.
+Definition keys_of (t : ty) : list Z := match t with TMap _ _ fs => fkeys fs | _ => [] end.
+Definition signed_of (t : ty) : bool := match t with TMap sk _ _ => sk | _ => false end.
 Definition zlist_eqb (a b : list Z) : bool := list_eqb Z.eqb a b.
 
 (* every structure: the keys its descriptor writes, in writing order, are the enumerators of its <X>MapIndex, in declaration
@@ -99,7 +99,7 @@ Fixpoint ty_eqb (a b : ty) {struct a} : bool :=
   | TU x, TU y => N.eqb x y
   | TI, TI | TBool, TBool | TText, TText | TBytes, TBytes | TTime, TTime | TIdx, TIdx => true
   | TArr x, TArr y => ty_eqb x y
-  | TMap s fs, TMap s' fs' => Bool.eqb s s' && fields_eqb fs fs'
+  | TMap s _ fs, TMap s' _ fs' => Bool.eqb s s' && fields_eqb fs fs'
   | _, _ => false
   end
 with fields_eqb (a b : fields) {struct a} : bool :=
@@ -152,7 +152,7 @@ Definition time_as_offset (s : string) (ms : list (string * (bool * bool * strin
   then match ms with (n, (o, v, _)) :: r => (n, (o, v, "u64")) :: r | [] => [] end else ms.
 Theorem FT_struct_members :
   forallb (fun sd => match lookup (fst sd) gen_structs, snd sd with
-                     | Some ms, TMap _ fs => members_ok (time_as_offset (fst sd) ms) fs
+                     | Some ms, TMap _ _ fs => members_ok (time_as_offset (fst sd) ms) fs
                      | _, _ => false
                      end) struct_descr = true.
 Proof. vm_compute. reflexivity. Qed.
